@@ -232,9 +232,46 @@ def corpus_cases():
     return out
 
 
+def exhaustive_conc(rng):
+    """thorough tier: two writers of one 4-byte blob, every source kind pair, every interleaving of up to 3 steps each,
+    over an absent / shorter prior file"""
+    import itertools
+    out = []
+    c = b"abcd"
+    kinds = ["honest", "honest-eof", "short", "long-after", "corrupt", "err"]
+    for ka, kb in itertools.product(kinds, repeat=2):
+        wa = {"size": 4, "src": mk_src(rng, c, ka), "k": ka}
+        wb = {"size": 4, "src": mk_src(rng, c, kb), "k": kb}
+        for f0 in (None, b"z"):
+            na, nb = min(3, len(wa["src"]) + 2), min(3, len(wb["src"]) + 2)
+            for pos in itertools.combinations(range(na + nb), na):
+                sched = [0 if i in pos else 1 for i in range(na + nb)]
+                out.append({"kind": "conc", "d": sha(c), "content": hx(c), "f0": None if f0 is None else hx(f0), "writers": [wa, wb], "sched": sched,
+                            "klass": "exhaustive-conc"})
+    return out
+
+
+def exhaustive_crash(rng):
+    """thorough tier: every source kind x every crash point, followed by an honest Put"""
+    out = []
+    for n in (1, 5):
+        c = rnd_content(rng, n)
+        for kind in SRC_KINDS:
+            src = mk_src(rng, c, kind)
+            for k in range(0, len(src) + 3):
+                ops = [{"op": "put", "d": sha(c), "size": len(c), "src": src, "k": kind, "crash": k},
+                       {"op": "get", "d": sha(c)},
+                       {"op": "put", "d": sha(c), "size": len(c), "src": mk_src(rng, c, "honest"), "k": "honest"},
+                       {"op": "get", "d": sha(c)}]
+                out.append({"kind": "hist", "pool": [hx(c)], "digests": [sha(c)], "ops": ops, "klass": "exhaustive-crash"})
+    return out
+
+
 def gen_cases(ctx):
     rng = ctx.rng
     cases = corpus_cases()
+    if not ctx.quick():
+        cases += exhaustive_conc(rng) + exhaustive_crash(rng)
     nh, nc = (260, 140) if ctx.quick() else (6000, 3000)
     for _ in range(nh):
         cases.append(gen_hist(rng))
@@ -543,6 +580,8 @@ def run(ctx, only_cases=None):
                        "Close never fails; manifests are smaller than 1 MiB (readAndSum limit)",
                        "crashes inside one write (a prefix of its bytes) are covered by the theorems, on the implementation only crashes between writes are produced"]
     ctx.proof_stage(["Blob"], "Blob/Properties_C08.v", extra_targets=["Blob/Corr.v"])
+    if not ctx.quick():
+        ctx.coqchk(["V.Blob.Properties_C08"])
     binp = ctx.go_build("c08")
     if not binp:
         return
@@ -572,7 +611,7 @@ def run(ctx, only_cases=None):
             so, _ = ctx.run_jsonl(binp, [small], timeout=60)
             ctx.violation(sig, what, {"case": small, "impl": so[0] if so else None, "original_case": c if small != c else None})
         items.append(render(c, o))
-    bad, log = ctx.coq_eval(HEADER, items, per_file=40)
+    bad, log = ctx.coq_eval(HEADER, items, per_file=25 if ctx.quick() else 80)
     if bad is None:
         ctx.obligation("correspondence: model evaluated on all cases", False, log)
         ctx.proof_failures.append({"obligation": "correspondence evaluation failed in coqc", "detail": log})
